@@ -82,6 +82,9 @@ V2 = V + [
     ['meta', {'metadata': {'é': [None, 1.5]}, 'encoding': 'utf-32-le'}],
     ['diff', {'content': b'@@ -1 +1 @@\r\n-a\r\n+b', 'diff_type': 'text',
               'line_endings': 'dos'}],
+    # valid or not depending on the encoding in effect where it is written
+    ['change', {'encoding': 'latin-1'}],
+    ['preamble', {'text': '5 \u20ac'}],
 ]
 # Arguments Python's codec registry resolves but which cannot stand as a
 # header value (blank, comma, line break, non-ASCII).  The property does not
@@ -147,6 +150,24 @@ def is_invalid(call):
     return any(_same(list(call), list(i)) for i in I)
 
 
+def unencodable_here(op, kw, w):
+    """Text that the encoding in effect (own, else inherited) cannot
+    represent: an invalid call *in this place*."""
+    if op != 'preamble' or not isinstance(kw.get('text'), str):
+        return False
+
+    eff = kw.get('encoding') or w.enc[-1]
+
+    try:
+        kw['text'].encode(eff)
+    except UnicodeError:
+        return True
+    except LookupError:
+        return False
+
+    return False
+
+
 def is_questionable(call):
     return any(_same(list(call), list(q)) for q in Q)
 
@@ -165,7 +186,8 @@ def judge(calls, main='utf-8'):
     want_ids = []
 
     for idx, (op, kw) in enumerate(calls):
-        legal = w.accepts(op) and not is_invalid([op, kw])
+        legal = w.accepts(op) and not is_invalid([op, kw]) and \
+            not unencodable_here(op, kw, w)
         before = stream.getvalue()
         raised = None
 
@@ -391,7 +413,8 @@ def strategy():
             calls.append(call)
 
             if w.accepts(call[0]) and not is_invalid(call) and \
-                    not is_questionable(call):
+                    not is_questionable(call) and \
+                    not unencodable_here(call[0], call[1], w):
                 w.advance(call[0], call[1])
 
         return {'encoding': main, 'calls': calls}
@@ -483,7 +506,7 @@ def checks():
         EnumCheck(
             'exhaustive', chunks, run_chunk, run_case=run_case,
             rule='all call sequences over the 5 operations with valid '
-                 'arguments up to length LV, and all sequences over 10 valid '
+                 'arguments up to length LV, and all sequences over 12 valid '
                  '+ 47 invalid-argument variants (wrong types, empty content, '
                  'bad option values, unencodable text incl. lone surrogates, '
                  'unknown and non-text codecs) + 8 codec names that cannot '
